@@ -152,3 +152,18 @@ CHECKS["C18"] = dict(
           "them into existing keys and periods, i.e. the in-place update branch), waits for exact quiescence, in half of the cases "
           "forces a flush, and then lets the scan continue; the delivered rows must equal the reference over the points inserted "
           "before the scan. non-trivial: the scan was actually paused with rows still to deliver"))
+
+CHECKS["C14"] = dict(
+    stages=[dict(sub="dbret", quick=64, thorough=3200, shrink=["ops"], parallel=16, shards=16)],
+    finding_key=db_finding_key, assumptions=_DB_ASSUME[:4] + [
+        "virtual time: the clock is the newest accepted timestamp; the model recomputes it and compares it with the DB clock at every query",
+        "one-sided where the property is: live periods (wholly inside the window) must be present with exact values; expired periods may linger until a "
+        "truncating flush, but must be absent from disk at or below the horizon of the last truncating flush; grouped/ranged queries are compared exactly",
+        "single table per database (the DB-wide clock makes 'too old when processed' schedule dependent across tables)"],
+    trusted=_DB_TRUSTED,
+    what_fails="retention: a too-old point was stored, a live period was dropped or changed, a windowed query returned an expired period, or an expired period survived a truncating flush / reappeared",
+    rule=("histories of 15-59 inserts whose timestamps walk forward by 0-3 resolutions per step (so the clock passes several retention periods; "
+          "retention/resolution in {1,2,3,5,10,40}), with late points (back by up to 1.5 x retention), points exactly on / +-1ns around the retention "
+          "boundary, out-of-order arrival, and flushes after each insert with probability 0, 1/8, 1/3 or 1/2 (so that >= 10 data-carrying flushes, i.e. a "
+          "truncating flush, happen in about half of the cases: counted in input_distribution); queries mid-history and at the end: raw view with memstore, a "
+          "grouped/ranged query, and the raw disk-only view after a final flush. non-trivial: at least one flush"))
